@@ -73,6 +73,21 @@ class Check:
     """One replayed behaviour / validated trace. case_key: hashable canonical identity of the case."""
     self.cov['evaluations'] += n
     self.cov['traces_validated_against_impl'] += n
+    # thousands of distinct jitted programs in one process exhaust the process's memory mappings (LLVM "Unable to allocate section
+    # memory", seen in the thorough tier): when the number of mappings gets high, drop the compiled executables
+    # (flax's own trace caches are Python-level and unaffected)
+    self._since_clear = getattr(self, '_since_clear', 0) + n
+    if self._since_clear >= 500 and 'jax' in sys.modules:
+      self._since_clear = 0
+      try:
+        with open('/proc/self/maps') as f:
+          nmaps = sum(1 for _ in f)
+        if nmaps > 20000:
+          sys.modules['jax'].clear_caches()
+          import gc
+          gc.collect()
+      except Exception:
+        pass
     if nontrivial and case_key is not None:
       self._distinct.add(case_key)
 
